@@ -3,9 +3,13 @@
 // (verdicts must not change under exact lattice maps, ring rotation / reversal, hole / element permutation).
 //   c05 valid-grid <seed> <n> <outbase>
 //   c05 node-topo <seed> <n> <outbase>    the real PolygonNodeTopology functions on integer points vs the Lean copy
+//   c05 ring-nested <seed> <n> <outbase>  the real PolygonTopologyAnalyzer::isRingNested on pairs of integer rings vs the Lean copy
+//                                         (and, for rings that do not cross, vs the exact containment reference)
 //   c05 replay <file>     lines: "V | <geom tokens> | ..."  or bare "<srid> <geom tokens>"  or "W <wkt>"
 #include "validgen.h"
+#include "c05touch.h"
 #include <geos/algorithm/PolygonNodeTopology.h>
+#include <geos/operation/valid/PolygonTopologyAnalyzer.h>
 #include <fstream>
 #include <iostream>
 using namespace vh;
@@ -103,10 +107,47 @@ int main(int argc, char** argv) {
             out.count(cr ? "crossing_1" : "crossing_0"); out.count("cmp_" + std::to_string(c01));
             out.emit(c, std::to_string(c01) + " " + std::to_string(cb) + " " + (cr ? "1" : "0") + " " + (i0 ? "1" : "0") + " " + (i1 ? "1" : "0")); }
         GEOS_finish_r(h); return 0; }
-    ValidGen gen(r, h, &out);
+    ValidGen gen(r, h, &out); TouchGen touch(r, &out);
+    if (stream == "ring-nested") {
+        using geos::operation::valid::PolygonTopologyAnalyzer;
+        typedef TouchGen::Ring Ring;
+        auto line = [](const Ring& g) { std::string s; for (auto& p : g) s += " " + std::to_string((long) p.x) + " " + std::to_string((long) p.y); return s; };
+        for (long i = 0; i < n; i++) {
+            Ring test, target; std::string fam;
+            int pick = (int) r.below(100);
+            if (pick < 60) {
+                int shape = (int) r.below(3); bool outer = r.chance(70); auto p = touch.parts(shape, outer);
+                touch.spin(p.B, r.chance(50)); touch.spin(p.A, r.chance(20)); touch.spin(p.box, false);
+                switch (r.below(10)) { case 0: test = p.A; target = p.B; fam = "touch_A_in_B"; break; case 1: test = p.B; target = p.box; fam = "touch_B_in_box"; break;
+                    case 2: test = p.A; target = p.box; fam = "touch_A_in_box"; break; case 3: test = p.box; target = p.A; fam = "touch_box_in_A"; break;
+                    default: test = p.B; target = p.A; fam = std::string("touch_B_in_") + (shape == 0 ? "comb" : shape == 1 ? "arch" : "bay"); }
+            } else {
+                auto& gg = gen.gg; gg.span = r.chance(50) ? 8 : 5; GGeom acc; gg.setPartner(acc, 0); auto a = gg.ring(); GElem e; e.kind = 2; e.rings.push_back(a); acc.elems.push_back(e);
+                gg.setPartner(acc, r.chance(50) ? 50 : 100); auto b = gg.ring(); gg.setPartner(GGeom{}, 0);
+                target = ValidGen::toHP(a); test = ValidGen::toHP(b); if (test.size() >= 4) touch.spin(test, false); if (r.chance(50)) std::swap(test, target); fam = "rand_contact"; }
+            if (test.size() < 4 || target.size() < 4) continue;
+            if (r.chance(12)) { Ring& g = r.chance(50) ? test : target; size_t k = r.below(g.size()); g.insert(g.begin() + (long) k, g[k]); out.count("repeated_vertex"); }
+            HGeo both; both.type = 5; both.seqs = {test, target};
+            if (r.chance(45)) { int sh = r.range(1, 2) * (r.chance(50) ? 1 : -1); bool xs = r.chance(50); for (auto& q : both.seqs) for (auto& v : q) { if (xs) v.x += sh * v.y; else v.y += sh * v.x; } }
+            Xform t; t.sym = (int) r.below(8); if (r.chance(50)) { long big = r.chance(20) ? 20000000 : 100; t.tx = r.range((int) -big, (int) big); t.ty = r.range((int) -big, (int) big); }
+            { HGeo tmp; tmp.type = 1; for (auto& q : both.seqs) { tmp.seqs = {q}; applyX(tmp, t); q = tmp.seqs[0]; } }
+            test = both.seqs[0]; target = both.seqs[1];
+            std::string res;
+            try { auto rt = gf->createLinearRing(csOf(test)); auto rg = gf->createLinearRing(csOf(target));
+                res = PolygonTopologyAnalyzer::isRingNested(rt.get(), rg.get()) ? "1" : "0"; }
+            catch (std::exception&) { res = "X"; }
+            out.count("family_" + fam); out.count("nested_" + res);
+            out.emit("R" + line(test) + " |" + line(target), res);
+        }
+        GEOS_finish_r(h); return 0; }
     for (long i = 0; i < n; i++) {
         std::string family; HGeo hg;
-        try { hg = gen.generate(family); } catch (std::exception& e) { out.count("generator_error"); continue; }
+        try {
+            int pick = (int) r.below(100);
+            if (pick < 22) { hg = touch.comb(family); if (r.chance(10) && gen.mutateContact(hg)) family += "+contact"; }
+            else if (pick < 26) { hg = touch.contactMultiPolygon(gen); family = "rand_contact_multipolygon"; }
+            else hg = gen.generate(family);
+        } catch (std::exception& e) { out.count("generator_error"); continue; }
         Xform t = gen.gg.xform(); if (r.chance(40)) { t = Xform{}; t.sym = (int) r.below(8); }
         applyX(hg, t);
         std::unique_ptr<Geometry> g; bool loose = false;
@@ -115,6 +156,7 @@ int main(int argc, char** argv) {
         std::string toks = dumpGeom(g.get());
         { FILE* cf = std::fopen((std::string(argv[4]) + ".current").c_str(), "w"); if (cf) { std::fprintf(cf, "%s\n", toks.c_str()); std::fclose(cf); } }
         std::string obs = observeAll(h, gf, hg, g.get(), r, &out);
+        if (family.rfind("touch_", 0) == 0) out.count(std::string("touchfamily_") + (family.find("+contact") != std::string::npos ? "mutated" : family.substr(family.size() - 5)) + (obs.rfind("v0=1", 0) == 0 ? "_valid" : "_invalid"));
         out.emit("V | " + toks + " | " + obs, "ok");
     }
     GEOS_finish_r(h); return 0;
